@@ -342,14 +342,20 @@ def run(ctx: Ctx, rs: RuleSet, tier: str):
              ctx.loc(f, f.node))
 
   # 7. __deepcopy__
+  import re as _re
+
+  def dtext(e):
+    # vars(x) is x.__dict__
+    return _re.sub(r'\bvars\(([A-Za-z_][\w.]*)\)', r'\1.__dict__', unparse(e))
+
   df, g, memo = deepcopy_memo_rules(ctx, rs, rule)
   ok = False
   for c in ctx.calls(df):
     if isinstance(c.func, ast.Attribute) and c.func.attr == 'update' and (
-        unparse(c.func.value).endswith('.__dict__')) and c.args:
+        dtext(c.func.value).endswith('.__dict__')) and c.args:
       a = c.args[0]
       if isinstance(a, ast.Call) and p.resolve(
-          a.func, df) == 'copy.deepcopy' and len(a.args) == 2 and unparse(
+          a.func, df) == 'copy.deepcopy' and len(a.args) == 2 and dtext(
               a.args[0]) == f'{df.params[0]}.__dict__' and unparse(
                   a.args[1]) == memo:
         ok = True
@@ -382,6 +388,17 @@ def run(ctx: Ctx, rs: RuleSet, tier: str):
   ok = bool(copies) and not writes_self and all(
       isinstance(r.value, ast.Name) and r.value.id == copies[0].targets[0].id
       for r in rets)
+  # ... or the copy and the override in one display:
+  # `{**self.__dict__, '__signature_info__': None}`
+  display_keys = None
+  if not copies and len(rets) == 1 and isinstance(
+      roles.deref(gs, rets[0].value), ast.Dict):
+    dd = roles.deref(gs, rets[0].value)
+    spread = [v for k, v in zip(dd.keys, dd.values) if k is None]
+    if len(spread) == 1 and dd.keys[0] is None and dtext(
+        spread[0]) == f'{gs.params[0]}.__dict__':
+      ok = not writes_self
+      display_keys = [unparse(k) for k in dd.keys if k is not None]
   rs.check(ok, rule, gs.qualname,
            'pickle state is a copy of the instance dict; the original is not '
            'written', ctx.loc(gs, gs.node))
@@ -389,16 +406,29 @@ def run(ctx: Ctx, rs: RuleSet, tier: str):
   dropped = [unparse(t.slice) for n in walk_function(gs.node)
              if isinstance(n, ast.Assign) for t in n.targets
              if isinstance(t, ast.Subscript)]
+  if display_keys is not None:
+    dropped = display_keys
   rs.check(dropped == ["'__signature_info__'"], rule,
            f'{gs.qualname}:dropped',
            f'fields overwritten in the pickle state: {dropped}',
            ctx.loc(gs, gs.node))
   ss = ctx.func(f'{B}.__setstate__')
   ok = any(isinstance(c.func, ast.Attribute) and c.func.attr == 'update' and
-           unparse(c.func.value) == f'{ss.params[0]}.__dict__' and
+           dtext(c.func.value) == f'{ss.params[0]}.__dict__' and
            unparse(c.args[0]) == ss.params[1] for c in ctx.calls(ss))
-  re_sig = any(p.resolve(c.func, ss) == 'fiddle._src.signatures.SignatureInfo'
-               for c in ctx.calls(ss))
+
+  def _derives_signature(fn, depth=0):
+    for c in ctx.calls(fn):
+      q_ = p.resolve(c.func, fn)
+      if q_ == 'fiddle._src.signatures.SignatureInfo':
+        return True
+      h_ = p.funcs.get(q_ or '')
+      if h_ is not None and depth < 1 and not h_.is_lambda and (
+          _derives_signature(h_, depth + 1)):
+        return True
+    return False
+
+  re_sig = _derives_signature(ss)
   rs.check(ok and re_sig, rule, ss.qualname,
            'unpickling restores the whole state and re-derives the signature',
            ctx.loc(ss, ss.node))
